@@ -9,21 +9,5 @@ Fixpoint always (fx : bool) (P : state -> Prop) (s : state) (tr : list event) : 
          | e :: r => match step fx s e with Ok s' => always fx P s' r | _ => True end
          end.
 
-(* No call is still outstanding (in its send or its select) once 65536 identifiers (its own
-   included) have been handed out since it began.  Identifiers are handed out consecutively modulo 2^16 and the code does NOT look whether
-   the identifier is still in the table, so this is the condition under which the identifiers of
-   the calls that wait at the same time are distinct (Proofs/PingIff.v: ids_distinct, sharp by
-   id_equal_iff). *)
-Definition young (s : state) : Prop :=
-  forall q pg, pget (pings s) q = Some pg -> outstanding pg = true -> cnt s - p_seq pg < 65536.
-
-Definition youngb (s : state) : bool :=
-  forallb (fun e : pid * ping => if outstanding (snd e) then cnt s - p_seq (snd e) <? 65536 else true)
-          (pings s).
-
-(* the recorded defect class "identifier reused while still waited for" (key ping_id_wrap_collision):
-   a state that is not young *)
-Definition known_C19_wrap (s : state) : bool := negb (youngb s).
-
 Definition is_notify (i : id) (e : event) : bool :=
   match e with Notify j => j =? i | _ => false end.
